@@ -1361,6 +1361,19 @@ class _Context:
         return self._method
 
 
+def unknown_attribute_guard(mod, what):
+    """attributes the facade does not provide must not look like an AttributeError of the code under
+    test (that would be reported as a failure of the program): they make the run INCONCLUSIVE"""
+
+    def __getattr__(name):
+        if name.startswith("__") and name.endswith("__"):
+            raise AttributeError(name)
+        raise SimUnsupported("unsupported-%s-api:%s" % (what, name))
+
+    mod.__getattr__ = __getattr__
+    return mod
+
+
 def make_module():
     m = types.ModuleType("multiprocessing")
     m.__path__ = []  # a package without importable submodules: `import multiprocessing.x` fails loudly
@@ -1428,4 +1441,6 @@ def make_module():
     pl.MapResult = simpool.MapResult
     m.pool = pl
     q.SimpleQueue = simpool.SimSimpleQueue
+    for sub, nm in ((m, "mp"), (q, "mp.queues"), (pr, "mp.process"), (pl, "mp.pool"), (cn, "mp.connection")):
+        unknown_attribute_guard(sub, nm)
     return m, {"multiprocessing.queues": q, "multiprocessing.process": pr, "multiprocessing.pool": pl, "multiprocessing.connection": cn}
